@@ -172,7 +172,11 @@ def check_sequences(rng: random.Random, conn, model: Model, lib_edges, acc: Acc)
             # qubits the parking rule names for THAT step's gates
             reported = [sorted(op.identifier.id for op in ops) for ops in seq.get_required_parkings(conn)]
             layers = seq.to_generic_surface_code(conn)
-            carried = [sorted(op.identifier.id for op in layers.get_gate_sequence_at_index(i).park_operations) for i in range(len(steps))]
+            carried = [sorted(op.identifier.id for op in layers.get_gate_sequence_at_index(i).park_operations) for i in range(min(len(steps), layers.gate_sequence_count))]
+            if len(reported) != len(steps) or len(carried) != len(steps):
+                acc.finding("sequence/step-parking", "an emitted sequence does not report parking step by step (one report per step)", case,
+                            {"steps": len(steps), "reports": len(reported), "layers": len(carried)})
+                break
             for i, step in enumerate(steps):
                 oriented = [_orient(g, model) for g in step]
                 busy = {q for g in step for q in g}
